@@ -326,6 +326,8 @@ func genHistory(t *Tape, k *Knobs, m mix, n int) []Step {
 				s.A, s.D = "bearer", int64(t.Intn(30))
 			case 3:
 				s.A = "bearer_same"
+			case 4:
+				s.A, s.D = "bearer_rt", int64(t.Intn(30)) // a refresh token is not a caller credential, however valid it is
 			}
 			if t.Chance(25) {
 				s.P = map[string]string{"scope": t.Pick([]string{"photos", "users.read", "admin", "openid photos", "mail.read", "offline", "offline_access", "openid"})}
@@ -414,9 +416,22 @@ func genHistory(t *Tape, k *Knobs, m mix, n int) []Step {
 					s.P["x_scope"] = "admin photos"
 					s.P["x_state"] = "attacker-state-xyz"
 				}
-				if t.Chance(20) {
-					s.P["x_code_challenge"] = s256("attacker-verifier-0123456789abcdefghijklmnopqrstuvw")
-					s.P["x_code_challenge_method"] = "S256"
+				if t.Chance(20 + m.pkceBad/3) {
+					if t.Chance(65) {
+						s.P["x_code_challenge"] = s256(AttackerVerifier)
+						s.P["x_code_challenge_method"] = "S256"
+					} else {
+						// present but empty: an attempt to strip the pushed PKCE binding
+						s.P["x_code_challenge"] = "EMPTY"
+						s.P["x_code_challenge_method"] = t.Pick([]string{"EMPTY", "S256", "plain"})
+					}
+					if m.pkceBad > 0 && t.Chance(70) {
+						steps = append(steps, s)
+						codes++
+						s = Step{Op: "redeem", C: -1, V: "latest", P: map[string]string{"ver": t.Pick([]string{"attacker", "none", "none", "correct"})}}
+						steps = append(steps, s)
+						continue
+					}
 				}
 				if t.Chance(10) {
 					s.P["x_nonce"] = "attacker-nonce-abcdefgh"
@@ -446,7 +461,7 @@ func genHistory(t *Tape, k *Knobs, m mix, n int) []Step {
 			steps = append(steps, Step{Op: "rotate_global", V: v, P: map[string]string{"new": fmt.Sprintf("rotated-global-secret-%02d-0123456789abcdef", secretN)}})
 		case 19:
 			if t.Bool() {
-				steps = append(steps, Step{Op: "bearer_assert", C: t.Intn(2), D: int64(t.Intn(2)), V: t.Pick([]string{"ok", "exp_past", "exp_just_past", "exp_past_45s", "exp_soon", "nbf_just_ahead", "nbf_past", "exp_too_far", "exp_within_max"})})
+				steps = append(steps, Step{Op: "bearer_assert", C: t.Intn(2), D: int64(t.Intn(3)), V: t.Pick([]string{"ok", "exp_past", "exp_just_past", "exp_past_45s", "exp_soon", "nbf_just_ahead", "nbf_past", "exp_too_far", "exp_within_max"})})
 			} else {
 				steps = append(steps, Step{Op: "client_assert", C: t.Intn(2), V: t.Pick([]string{"ok", "expired", "exp_just_past", "expired_45s", "expired_long", "exp_soon", "exp_zero", "replay"})})
 			}
@@ -530,6 +545,8 @@ func bearerKeys() []BearerKeySpec {
 	return []BearerKeySpec{
 		{Issuer: "svc-one@sim", Subject: "svc-one", KeyName: "rsa1", KID: "bk-1", Scopes: []string{"photos", "mail.*"}},
 		{Issuer: "svc-two@sim", Subject: "svc-two", KeyName: "ec_p256_1", KID: "bk-2", Scopes: []string{"photos"}},
+		// a key registered WITHOUT scopes covers no scope at all (it is not "unrestricted")
+		{Issuer: "svc-three@sim", Subject: "svc-three", KeyName: "rsa3", KID: "bk-3", Scopes: nil},
 	}
 }
 
